@@ -1,7 +1,8 @@
 ------------------------------ MODULE RuntimeCycle ------------------------------
 (* One resource of the trust-platform runtime, at the grain of Runtime::execute_cycle     *)
-(* (crates/trust-runtime/src/runtime/cycle.rs): driver reads -> latch -> ready tasks ->    *)
-(* background programs -> publish -> driver writes, with a fault possible in every phase,  *)
+(* (crates/trust-runtime/src/runtime/cycle.rs): driver reads -> latch -> ready tasks (the   *)
+(* programs of each, then the FB instances associated with it) -> background programs ->   *)
+(* publish -> driver writes, with a fault possible in every phase,                         *)
 (* the fault latch, fault policy / watchdog action and the safe-state map.                 *)
 (*                                                                                         *)
 (* Written from properties C06 (task model), C07 (process image) and C08 (fault halts the  *)
@@ -39,7 +40,8 @@ Span(a) == IF a.size = "X" THEN {<<a.byte, a.bit>>}
 \*   programs[j] = [name, task ("" = background), copies = << [from, to] >>]   declaration order
 \*   fbs[f]      = [name, prog, task, copies]   FUNCTION_BLOCK instance `name` declared in program
 \*                 instance `prog` and associated with `task` by the program configuration
-\*                 (PROGRAM prog [WITH t] : Type (inst WITH task, ...)); order of the lists
+\*                 (PROGRAM prog [WITH t] : Type (inst WITH task, ...)); per program in the order
+\*                 of its list; `inst` may be a path (member of another FB instance: g1.f)
 \*   bindings[k] = [var, area, size, byte, bit]
 \*   drivers[d]  = [off, len]        (the slice of the input image the driver owns)
 \*   policy      \in {"halt", "safe_halt", "restart"}      fault policy
